@@ -78,6 +78,15 @@ def compat(vt, ft):
         return compat(vt.t, ft.t) or isinstance(vt.t, Ty.TAny)
     if isinstance(vt, Ty.TDict) and isinstance(ft, Ty.TDict):
         return True
+    if isinstance(vt, Ty.TInst) and isinstance(ft, Ty.TDict):
+        # an instance of a dict subclass that overrides none of the mapping methods is used as the mapping it is (A-PY)
+        try:
+            c = front.cls_obj(vt.cls)
+            return issubclass(c, dict) and not any(m in k.__dict__ for k in c.__mro__ if k is not dict and k is not object
+                                                   for m in ('__getitem__', '__setitem__', '__delitem__', '__contains__', 'get', 'keys',
+                                                             'items', 'values', 'copy', '__iter__', '__len__', 'pop', 'update'))
+        except Exception:
+            return False
     if isinstance(vt, Ty.TBool) and isinstance(ft, Ty.TInt):
         return True
     return False
